@@ -502,6 +502,9 @@ class Ref:
                     idx = i
             if v is self.default:
                 continue                      # keep the static text, or nothing
+            if n in (self.options.get('boolean_attributes') or ()):
+                # configured as boolean: name="name" for true values, absent for false ones
+                v = n if v else None
             if v is None:
                 if idx is not None:
                     attrs[idx] = None
